@@ -923,7 +923,7 @@ KINDS4 = ["object", "fluent", "action", "param"]
 FAM_Q = [(["a", "A", "a_0", "a b", "a_b", "1", "o_1", "and", "start", "", "total-cost"], KINDS4, [[], ["temporal"]], 2)]
 FAM_T = [(["a", "A", "a_", "a_0", "A_0", "a b", "a-b", "a_b", "1", "o_1", "and", "AND", "and_", "start", "", "total-cost"], KINDS4,
           [[], ["temporal"]], 2),
-         (["a", "A", "a_0", "a b", "1", "and", "start", ""], ["object", "action", "param"], [[], ["temporal"]], 3),
+         (["a", "A", "a_0", "a b", "and", "start", ""], ["object", "action", "param"], [[], ["temporal"]], 3),
          (["a", "a_", "always", "ALWAYS", "at", "at_", "within", "start"], ["fluent", "action", "param"], [[], ["traj"], ["temporal"]], 2)]
 
 T1_CFG = """SPECIFICATION ISpec
@@ -932,14 +932,16 @@ CONSTANTS AliasKw = %(alias)s
  MaxItems = %(mi)d
  MaxTouch = 1
  Lang = "%(lang)s"
-INVARIANT NamedOK
-INVARIANT ValidOK
-INVARIANT NotKeywordOK
-INVARIANT DistinctOK
-INVARIANT InverseOK
-INVARIANT HistoryIndependentOK
-INVARIANT KwCovers
+%(invs)s
 """
+T1_PROPER = ["NamedOK", "ValidOK", "NotKeywordOK", "DistinctOK", "InverseOK", "KwCovers"]
+T1_RUNS = [  # (language, AliasKw, Anchored, label, invariants)
+    ("pddl", "FALSE", "TRUE", "repaired", T1_PROPER + ["HistoryIndependentOK"]),
+    ("pddl", "TRUE", "FALSE", "as-written", T1_PROPER),
+    ("pddl", "TRUE", "FALSE", "as-written", ["HistoryIndependentOK"]),
+    ("anml", "FALSE", "TRUE", "repaired", T1_PROPER + ["HistoryIndependentOK"]),
+    ("anml", "TRUE", "FALSE", "as-written", T1_PROPER + ["HistoryIndependentOK"]),
+]
 
 JUDGE_CFG = "SPECIFICATION TraceSpec\nINVARIANT Verdict\n"
 
@@ -963,10 +965,11 @@ def judge(ctx, label, traces, env, meta):
         raise MachineryError("judge consumed %d states, expected %d" % (res.distinct, expected))
     ctx.add_tlc("judge-" + label, res)
     ctx.cov["traces_validated_against_impl"] += len(traces)
+    fails = [x for x in res.printed if x and x[0] == "FAIL"]
+    if res.stdout.count('"FAIL"') != len(fails):
+        raise MachineryError("judge printed %d FAIL tuples, %d were parsed" % (res.stdout.count('"FAIL"'), len(fails)))
     byid = {t["id"]: t for t in traces}
-    for p in res.printed:
-        if not p or p[0] != "FAIL":
-            continue
+    for p in sorted((x for x in res.printed if x and x[0] == "FAIL"), key=lambda x: (x[1], repr(x))):
         _, tid, clause, step, idx, detail = p
         t = byid[tid]
         o = t["ops"][step - 1]
@@ -1089,34 +1092,35 @@ def run(ctx):
         tlc.write_json(unipath, {"names": [cp(n) for n in unames], "kinds": ukinds, "feats": featsets})
         envf = {"KW": kwpath, "UNIV": unipath}
         # ---- T1: design check (first universe) ---------------------------------------------
-        if fi == 0:
-            for lang in ("pddl", "anml"):
-                for alias, anch, label in (("FALSE", "TRUE", "repaired"), ("TRUE", "FALSE", "as-written")):
-                    res = tlc.run_tlc("RenamerImpl", T1_CFG % {"alias": alias, "anch": anch, "mi": 2, "lang": lang}, ctx.sub("t1"),
-                                      env=envf, timeout=3000, coverage=(label == "repaired"))
-                    if res.error:
-                        raise MachineryError(res.error)
-                    ctx.add_tlc("T1 %s %s" % (lang, label), res)
-                    if label == "repaired":
-                        need = ["INew", "IName", "ITouch"] if lang == "pddl" else ["INew"]
-                        for a in need:
-                            if res.coverage.get(a, (0, 0))[0] == 0:
-                                raise MachineryError("T1 %s: action %s never taken (vacuous design check)" % (lang, a))
-                        if res.violated:
-                            ctx.violation("T1|%s|%s" % (lang, res.violated),
-                                          "the repaired naming design (%s) violates %s" % (lang, res.violated),
-                                          {"trace": [s["vars"].get("wr") for s in res.trace]})
-                    elif res.violated:
-                        # a design-level counterexample of the mechanism as written: the problem is one of the
-                        # skeletons replayed below on the real writers, where the judge decides
-                        wr = res.trace[-1]["vars"].get("wr", {}) if res.trace else {}
-                        p = wr.get("p", {}) if isinstance(wr, dict) else {}
-                        try:
-                            items = [[x["kind"], uncp(x["orig"])] for x in p.get("items", [])]
-                        except Exception:
-                            items = []
-                        t1_notes.append({"lang": lang, "violates": res.violated, "items": items,
-                                         "writers_constructed_before": res.trace[-1]["vars"].get("touched") if res.trace else None})
+        if fi == 0 and not os.environ.get("C38_SKIP_T1"):  # (development knob: T1 does not touch the implementation)
+            for lang, alias, anch, label, invs in T1_RUNS:
+                cfg = T1_CFG % {"alias": alias, "anch": anch, "mi": 2, "lang": lang, "invs": "\n".join("INVARIANT " + i for i in invs)}
+                res = tlc.run_tlc("RenamerImpl", cfg, ctx.sub("t1"), env=envf, timeout=3000, coverage=(label == "repaired"))
+                if res.error:
+                    raise MachineryError(res.error)
+                ctx.add_tlc("T1 %s %s %s" % (lang, label, "+".join(i[:-2] for i in invs if i != "KwCovers")), res)
+                if label == "repaired":
+                    need = ["INew", "IName", "ITouch"] if lang == "pddl" else ["INew"]
+                    for a in need:
+                        if res.coverage.get(a, (0, 0))[0] == 0:
+                            raise MachineryError("T1 %s: action %s never taken (vacuous design check)" % (lang, a))
+                    if res.violated:
+                        ctx.violation("T1|%s|%s" % (lang, res.violated),
+                                      "the repaired naming design (%s) violates %s" % (lang, res.violated),
+                                      {"trace": [s["vars"].get("wr") for s in res.trace]})
+                elif res.violated:
+                    # a design-level counterexample of the mechanism as written: the problem is one of the
+                    # skeletons replayed below on the real writers, where the judge decides
+                    wr = res.trace[-1]["vars"].get("wr", {}) if res.trace else {}
+                    p = wr.get("p", {}) if isinstance(wr, dict) else {}
+                    try:
+                        items = [[x["kind"], uncp(x["orig"])] for x in p.get("items", [])]
+                    except Exception:
+                        items = []
+                    t1_notes.append({"lang": lang, "violates": res.violated, "items": items,
+                                     "writers_constructed_before": res.trace[-1]["vars"].get("touched") if res.trace else None})
+                else:
+                    t1_notes.append({"lang": lang, "holds_as_written": [i for i in invs]})
         # ---- T2: TLC-enumerated skeletons on the real writers --------------------------------
         d = ctx.sub("enum%d" % fi)
         out = os.path.join(d, "cases.ndjson")
